@@ -1,11 +1,411 @@
-/- C20 — placeholder while the check pipeline is brought up; replaced by the property theorems. -/
-import Wbxml.Model.ToolMain
+/-
+  C20 — the command-line tools report the library's verdict and nothing else.
+
+  All theorems are about `Model.Tool.tool t g lib w argv`: tool `t` (wbxml2xml / xml2wbxml) linked with
+  option scanner `g` (attgetopt.c or the C library's getopt), for EVERY library behaviour `lib`, EVERY
+  world `w` (stdin, what `fopen` answers for every path, whether the output device stores bytes, the
+  `fread` schedule) and EVERY argv made of C strings. The model is tied to the executables by
+  `tools/props/c20.py`.
+-/
+import Wbxml.Lemmas.ToolMain
+import Wbxml.Gen.Tables
 namespace Wbxml.Props.C20
 open Wbxml Wbxml.Model.Tool
 
-theorem exit_status_is_a_byte (e : Nat) (a : Bytes) (l : List Line) (f : List FileWrite) (c : Option (Params × Bytes)) :
-    ∃ o, mkOut e a l f c = .done o ∧ o.exit < 256 := by
-  refine ⟨_, rfl, ?_⟩
-  exact Nat.mod_lt _ (by decide)
+/-! ### the option scanner -/
+
+/-- `wbxml_getopt` (attgetopt.c), run to EOF on any argv: never reads outside an argv string or
+    dereferences `argv[argc]`, terminates within the model's fuel, and hands `main` an argument with
+    every option that is declared with `:`. -/
+theorem att_getopt_safe_and_total (opts : Bytes) (argv : Argv) (hn : NulFree argv) :
+    ∃ sr, attScan opts argv = .ok sr ∧ ScanOK opts argv sr :=
+  attScan_ok opts argv hn
+
+/-- The same contract for the C library's getopt as specified by `gnuScan`. -/
+theorem gnu_getopt_contract (opts : Bytes) (argv : Argv) : ScanOK opts argv (gnuScan opts argv) :=
+  gnuScan_ok opts argv
+
+theorem scan_ok (t : Tool) (g : Getopt) (argv : Argv) (hn : NulFree argv) :
+    ∃ sr, scan g (toolOpts t) argv = .ok sr ∧ ScanOK (toolOpts t) argv sr := by
+  cases g with
+  | att => exact attScan_ok _ argv hn
+  | gnu => exact ⟨_, rfl, gnuScan_ok _ argv⟩
+
+/-- Quirk of attgetopt.c recorded in DESIGN Appendix C: a leading `--` is not an end-of-options marker
+    but the illegal option `-`; the C library's getopt treats it as the marker. -/
+theorem att_dashdash_is_illegal_option :
+    (match attScan (toolOpts .x2w) [b!"p", b!"--", b!"f"] with
+      | .ok r => r.evs.map (·.opt) == [63] && r.optind == 2
+      | .error _ => false) = true ∧
+    ((gnuScan (toolOpts .x2w) [b!"p", b!"--", b!"f"]).evs, (gnuScan (toolOpts .x2w) [b!"p", b!"--", b!"f"]).optind)
+      = ([], 2) := by decide
+
+/-- The mid-cluster `--` test of attgetopt.c (`sp != 1` and `argv[optind]` is `--`) can never fire:
+    in a state with `sp > 1` the current word has more than two characters. -/
+theorem att_midcluster_dashdash_dead (argv : Argv) (st : GState) (hi : Inv argv st) (hsp : st.sp ≠ 1) :
+    argv[st.optind]? ≠ some b!"--" := by
+  rcases hi.2 with h | ⟨w, hw, h1, h2⟩
+  · exact absurd h hsp
+  · intro h
+    rw [hw] at h
+    cases h
+    simp at h2
+    omega
+
+/-- Every language name `-l` accepts denotes a language of the library's (regenerated) main table. -/
+theorem lang_names_are_library_languages :
+    langNames.all (fun p => Gen.main.any (fun l => l.id == p.2)) = true := by decide +kernel
+
+/-! ### never_crashes -/
+
+/-- Unknown options, missing arguments, unreadable input, unwritable output — whatever argv, world
+    and library: the run ends with an exit status, never in a fault. -/
+theorem never_crashes (t : Tool) (g : Getopt) (lib : Lib) (w : World) (argv : Argv) (hn : NulFree argv) :
+    ∃ o, tool t g lib w argv = .done o := by
+  obtain ⟨sr, hs, hok⟩ := scan_ok t g argv hn
+  simp only [tool, hs]
+  rcases toolMain_cases t lib w argv sr hok with ⟨pre, ls, _, _, h⟩ | ⟨pre, p, output, i, _, _, h⟩
+  · exact ⟨_, h⟩
+  · rw [h]
+    unfold convAndWrite
+    repeat' split
+    all_goals exact ⟨_, rfl⟩
+
+/-! ### the two kinds of run -/
+
+/-- A run either converts nothing (exit 0, nothing on stdout, no file opened for writing, the
+    scanner's messages followed by help / "Missing arguments"+help / "Failed to open" / "Error while
+    reading"), or it is the conversion of the designated input, read completely. -/
+theorem run_cases (t : Tool) (g : Getopt) (lib : Lib) (w : World) (argv : Argv) (hn : NulFree argv) :
+    ∃ sr, scan g (toolOpts t) argv = .ok sr ∧
+    ((∃ pre ls, GetoptLines argv pre ∧ UsageTail ls ∧
+        tool t g lib w argv = .done ⟨0, [], pre ++ ls, [], none⟩) ∨
+     (∃ pre p output input, GetoptLines argv pre ∧ InputIs w sr input ∧
+        tool t g lib w argv = convAndWrite t lib w p output input pre)) := by
+  obtain ⟨sr, hs, hok⟩ := scan_ok t g argv hn
+  refine ⟨sr, hs, ?_⟩
+  simp only [tool, hs]
+  rcases toolMain_cases t lib w argv sr hok with ⟨pre, ls, hg, hu, h⟩ | ⟨pre, p, output, i, hg, hi, h⟩
+  · exact .inl ⟨pre, ls, hg, hu, by rw [h]; rfl⟩
+  · exact .inr ⟨pre, p, output, i, hg, hi, h⟩
+
+/-! ### reads_whole_input -/
+
+/-- `fread` may cut the input into any pieces of 1…1000 bytes: the buffer handed on is the input. -/
+theorem reads_whole_input (t : Tool) (sched : List Nat) (content : Bytes) :
+    readAll t sched content = .data content :=
+  readAll_spec t sched content
+
+/-- The bytes given to the library are the complete contents of the designated input (stdin for `-`). -/
+theorem conversion_input_is_designated_input (t : Tool) (g : Getopt) (lib : Lib) (w : World) (argv : Argv)
+    (hn : NulFree argv) (o : Out) (h : tool t g lib w argv = .done o) (p : Params) (i : Bytes)
+    (hc : o.call = some (p, i)) :
+    ∃ sr, scan g (toolOpts t) argv = .ok sr ∧ InputIs w sr i := by
+  obtain ⟨sr, hs, hcase⟩ := run_cases t g lib w argv hn
+  refine ⟨sr, hs, ?_⟩
+  rcases hcase with ⟨pre, ls, _, _, h'⟩ | ⟨pre, p', output, i', _, hi, h'⟩
+  · rw [h'] at h
+    cases h
+    cases hc
+  · rw [h'] at h
+    unfold convAndWrite at h
+    have : i' = i := by
+      repeat' split at h
+      all_goals (simp only [mkOut, Result.done.injEq] at h; subst h; simp only [Option.some.injEq, Prod.mk.injEq] at hc; exact hc.2)
+    exact this ▸ hi
+
+/-- The result does not depend on how `fread` cuts the input. -/
+theorem chunking_is_unobservable (t : Tool) (g : Getopt) (lib : Lib) (w : World) (argv : Argv) (s : List Nat) :
+    tool t g lib { w with sched := s } argv = tool t g lib w argv := by
+  have h : ∀ p output sr errs, afterOpts t lib { w with sched := s } p output sr errs = afterOpts t lib w p output sr errs := by
+    intro p output sr errs
+    simp only [afterOpts, readAll_spec]
+    rfl
+  cases t <;> simp only [tool, toolMain, w2xMain, x2wMain, h]
+
+/-! ### exit_is_lib_code, failed_line_iff_failure, no_output_on_failure, out_is_lib_bytes -/
+
+/-- Everything observable about a run that reaches the conversion, as a function of the library's
+    answer. Stated for `convAndWrite`; `run_cases` says every converting run is one. -/
+theorem conv_failure (t : Tool) (lib : Lib) (w : World) (p : Params) (output : Option Bytes) (i : Bytes)
+    (pre : List Line) (c : Nat) (h : lib.conv p i = .error c) :
+    convAndWrite t lib w p output i pre =
+      .done ⟨c % 256, [], pre ++ [.failed t (lib.errStr c)], [], some (p, i)⟩ := by
+  simp [convAndWrite, h, mkOut]
+
+theorem conv_success_no_output (t : Tool) (lib : Lib) (w : World) (p : Params) (i : Bytes)
+    (pre : List Line) (res : Bytes) (h : lib.conv p i = .ok res) :
+    convAndWrite t lib w p none i pre = .done ⟨0, [], pre ++ [.succeeded t], [], some (p, i)⟩ := by
+  simp [convAndWrite, h, mkOut]
+
+/-- `-o -`: stdout receives exactly the library's bytes. -/
+theorem conv_success_stdout (t : Tool) (lib : Lib) (w : World) (p : Params) (i : Bytes)
+    (pre : List Line) (res : Bytes) (h : lib.conv p i = .ok res) (hs : w.stdout = .ok) :
+    convAndWrite t lib w p (some b!"-") i pre = .done ⟨0, res, pre ++ [.succeeded t], [], some (p, i)⟩ := by
+  simp [convAndWrite, h, mkOut, hs, fwriteShort, flushFails, stored]
+
+/-- `-o path`: the file is created/truncated and receives exactly the library's bytes; stdout nothing. -/
+theorem conv_success_file (t : Tool) (lib : Lib) (w : World) (p : Params) (i : Bytes)
+    (pre : List Line) (res path : Bytes) (h : lib.conv p i = .ok res) (hp : path ≠ b!"-")
+    (hs : w.openW path = .ok .ok) :
+    convAndWrite t lib w p (some path) i pre =
+      .done ⟨0, [], pre ++ [.succeeded t], [⟨path, res, true⟩], some (p, i)⟩ := by
+  have hb : (path == b!"-") = false := by simp [hp]
+  simp [convAndWrite, h, mkOut, hs, hb, fwriteShort, flushFails, stored]
+
+/-- Unwritable output (cannot be opened): reported on stderr, exit status still the library's 0,
+    nothing written anywhere, no fault. -/
+theorem conv_success_unopenable_output (t : Tool) (lib : Lib) (w : World) (p : Params) (i : Bytes)
+    (pre : List Line) (res path : Bytes) (h : lib.conv p i = .ok res) (hp : path ≠ b!"-")
+    (hs : w.openW path = .fail) :
+    convAndWrite t lib w p (some path) i pre =
+      .done ⟨0, [], pre ++ [.succeeded t, .failedOpenOut path], [], some (p, i)⟩ := by
+  have hb : (path == b!"-") = false := by simp [hp]
+  simp [convAndWrite, h, mkOut, hs, hb]
+
+/-- Unwritable output (device stores nothing): a non-empty result is reported as a write error,
+    whichever of `fwrite` / `fflush` / `fclose` notices. -/
+theorem conv_success_full_device (t : Tool) (lib : Lib) (w : World) (p : Params) (i : Bytes)
+    (pre : List Line) (res path : Bytes) (buf : Nat) (h : lib.conv p i = .ok res) (hne : res ≠ [])
+    (hs : (path = b!"-" ∧ w.stdout = .full buf) ∨ (path ≠ b!"-" ∧ w.openW path = .ok (.full buf))) :
+    ∃ o, convAndWrite t lib w p (some path) i pre = .done o ∧ Line.writeError path ∈ o.stderr ∧
+      o.exit = 0 ∧ o.stdout = [] := by
+  have hl : 0 < res.length := List.length_pos_iff.mpr hne
+  have hbad : (fwriteShort (.full buf) res.length || flushFails (.full buf) res.length) = true := by
+    simp only [fwriteShort, flushFails, hl, decide_true, Bool.true_and, Bool.or_eq_true, decide_eq_true_eq]
+    omega
+  have hst : stored (.full buf) res = false := by
+    cases res with
+    | nil => exact absurd rfl hne
+    | cons _ _ => rfl
+  rcases hs with ⟨hp, hs⟩ | ⟨hp, hs⟩
+  · subst hp
+    refine ⟨_, by simp only [convAndWrite, h, beq_self_eq_true, if_true, hs, hbad, hst, mkOut]; rfl, ?_, rfl, rfl⟩
+    simp
+  · have hb : (path == b!"-") = false := by simp [hp]
+    refine ⟨_, by simp only [convAndWrite, h, hb, hs, hbad, hst, mkOut]; rfl, ?_, rfl, rfl⟩
+    simp
+
+/-- Shape of every successful conversion run: exit 0, "<tool> succeeded", then at most one line about
+    the output; stdout is empty or the result; at most one file, holding the result if it was stored. -/
+theorem conv_success_cases (t : Tool) (lib : Lib) (w : World) (p : Params) (output : Option Bytes) (i : Bytes)
+    (pre : List Line) (res : Bytes) (h : lib.conv p i = .ok res) :
+    ∃ so files tail, convAndWrite t lib w p output i pre =
+        .done ⟨0, so, pre ++ .succeeded t :: tail, files, some (p, i)⟩ ∧
+      (so = [] ∨ so = res) ∧
+      (files = [] ∨ ∃ path c, files = [⟨path, if c then res else [], c⟩]) ∧
+      (∀ l ∈ tail, (∃ q, l = .failedOpenOut q) ∨ (∃ q, l = .writeError q)) := by
+  unfold convAndWrite
+  simp only [h]
+  cases output with
+  | none => exact ⟨[], [], [], by simp [mkOut], .inl rfl, .inl rfl, by intro l hl; cases hl⟩
+  | some path =>
+    by_cases hb : (path == b!"-") = true
+    · simp only [hb, if_true]
+      refine ⟨if stored w.stdout res then res else [], [],
+        if (fwriteShort w.stdout res.length || flushFails w.stdout res.length) then [.writeError path] else [],
+        by simp [mkOut], ?_, .inl rfl, ?_⟩
+      · split
+        · exact .inr rfl
+        · exact .inl rfl
+      · intro l hl
+        split at hl
+        · rw [List.mem_singleton] at hl
+          exact .inr ⟨_, hl⟩
+        · cases hl
+    · simp only [hb]
+      cases hw : w.openW path with
+      | fail =>
+        refine ⟨[], [], [.failedOpenOut path], by simp [mkOut], .inl rfl, .inl rfl, ?_⟩
+        intro l hl
+        rw [List.mem_singleton] at hl
+        exact .inl ⟨_, hl⟩
+      | ok sk =>
+        refine ⟨[], [⟨path, if stored sk res then res else [], stored sk res⟩],
+          if (fwriteShort sk res.length || flushFails sk res.length) then [.writeError path] else [],
+          by simp [mkOut], .inl rfl, .inr ⟨path, stored sk res, rfl⟩, ?_⟩
+        intro l hl
+        split at hl
+        · rw [List.mem_singleton] at hl
+          exact .inr ⟨_, hl⟩
+        · cases hl
+
+/-- `exit_is_lib_code`: the exit status is the library's result code modulo 256 (0 for success, and 0
+    when the library was never called). -/
+theorem exit_is_lib_code (t : Tool) (g : Getopt) (lib : Lib) (w : World) (argv : Argv) (hn : NulFree argv)
+    (o : Out) (h : tool t g lib w argv = .done o) :
+    o.exit = match o.call with
+      | none => 0
+      | some (p, i) => (match lib.conv p i with
+        | .ok _ => 0
+        | .error c => c % 256) := by
+  obtain ⟨sr, _, hcase⟩ := run_cases t g lib w argv hn
+  rcases hcase with ⟨pre, ls, _, _, h'⟩ | ⟨pre, p, output, i, _, _, h'⟩
+  · rw [h'] at h; cases h; rfl
+  · rw [h'] at h
+    cases hl : lib.conv p i with
+    | error c =>
+      rw [conv_failure t lib w p output i pre c hl] at h
+      cases h
+      simp [hl]
+    | ok res =>
+      obtain ⟨so, files, tail, he, _⟩ := conv_success_cases t lib w p output i pre res hl
+      rw [he] at h
+      cases h
+      simp [hl]
+
+/-- `no_output_on_failure`: when the conversion fails (or never takes place) stdout stays empty and no
+    file is opened for writing — an existing output file keeps its contents. -/
+theorem no_output_on_failure (t : Tool) (g : Getopt) (lib : Lib) (w : World) (argv : Argv) (hn : NulFree argv)
+    (o : Out) (h : tool t g lib w argv = .done o)
+    (hf : o.call = none ∨ ∃ p i c, o.call = some (p, i) ∧ lib.conv p i = .error c) :
+    o.stdout = [] ∧ o.files = [] := by
+  obtain ⟨sr, _, hcase⟩ := run_cases t g lib w argv hn
+  rcases hcase with ⟨pre, ls, _, _, h'⟩ | ⟨pre, p, output, i, _, _, h'⟩
+  · rw [h'] at h; cases h; exact ⟨rfl, rfl⟩
+  · rw [h'] at h
+    cases hl : lib.conv p i with
+    | error c =>
+      rw [conv_failure t lib w p output i pre c hl] at h
+      cases h
+      exact ⟨rfl, rfl⟩
+    | ok res =>
+      exfalso
+      obtain ⟨so, files, tail, he, _⟩ := conv_success_cases t lib w p output i pre res hl
+      rw [he] at h
+      cases h
+      rcases hf with hf | ⟨p', i', c, hf, hc⟩
+      · cases hf
+      · simp only [Option.some.injEq, Prod.mk.injEq] at hf
+        rw [← hf.1, ← hf.2, hl] at hc
+        cases hc
+
+/-- `out_is_lib_bytes` ("nothing else" half): whatever reaches stdout or a file is the library's
+    result, byte for byte; at most one file is written. The "exactly" half for each output
+    designation is `conv_success_stdout` / `conv_success_file` / `conv_success_no_output`. -/
+theorem out_is_lib_bytes (t : Tool) (g : Getopt) (lib : Lib) (w : World) (argv : Argv) (hn : NulFree argv)
+    (o : Out) (h : tool t g lib w argv = .done o) (p : Params) (i res : Bytes)
+    (hc : o.call = some (p, i)) (hl : lib.conv p i = .ok res) :
+    (o.stdout = [] ∨ o.stdout = res) ∧ o.files.length ≤ 1 ∧
+    (∀ f ∈ o.files, f.complete = true → f.content = res) := by
+  obtain ⟨sr, _, hcase⟩ := run_cases t g lib w argv hn
+  rcases hcase with ⟨pre, ls, _, _, h'⟩ | ⟨pre, p', output, i', _, _, h'⟩
+  · rw [h'] at h; cases h; cases hc
+  · rw [h'] at h
+    cases hl' : lib.conv p' i' with
+    | error c =>
+      rw [conv_failure t lib w p' output i' pre c hl'] at h
+      cases h
+      simp only [Option.some.injEq, Prod.mk.injEq] at hc
+      rw [hc.1, hc.2, hl] at hl'
+      cases hl'
+    | ok res' =>
+      obtain ⟨so, files, tail, he, hso, hfiles, _⟩ := conv_success_cases t lib w p' output i' pre res' hl'
+      rw [he] at h
+      cases h
+      simp only [Option.some.injEq, Prod.mk.injEq] at hc
+      rw [hc.1, hc.2, hl] at hl'
+      cases hl'
+      refine ⟨hso, ?_, ?_⟩
+      · rcases hfiles with rfl | ⟨path, c, rfl⟩ <;> simp
+      · rcases hfiles with rfl | ⟨path, c, rfl⟩
+        · intro f hf; cases hf
+        · intro f hf hcomp
+          rw [List.mem_singleton] at hf
+          subst hf
+          simp only at hcomp
+          simp [hcomp]
+
+/-- `failed_line_iff_failure`: a "<tool> failed:" line is printed exactly when the conversion fails. -/
+theorem failed_line_iff_failure (t : Tool) (g : Getopt) (lib : Lib) (w : World) (argv : Argv) (hn : NulFree argv)
+    (o : Out) (h : tool t g lib w argv = .done o) :
+    (∃ t' x, Line.failed t' x ∈ o.stderr) ↔ (∃ p i c, o.call = some (p, i) ∧ lib.conv p i = .error c) := by
+  have hgl : ∀ pre : List Line, GetoptLines argv pre → ∀ t' x, Line.failed t' x ∉ pre := by
+    intro pre hg t' x hm
+    obtain ⟨_, _, _, he⟩ := hg _ hm
+    cases he
+  obtain ⟨sr, _, hcase⟩ := run_cases t g lib w argv hn
+  rcases hcase with ⟨pre, ls, hg, hu, h'⟩ | ⟨pre, p, output, i, hg, _, h'⟩
+  · rw [h'] at h; cases h
+    constructor
+    · rintro ⟨t', x, hm⟩
+      rcases List.mem_append.mp hm with hm | hm
+      · exact absurd hm (hgl pre hg t' x)
+      · rcases hu with rfl | rfl | ⟨n, rfl⟩ | ⟨n, rfl⟩ <;> simp at hm
+    · rintro ⟨_, _, _, hc, _⟩
+      cases hc
+  · rw [h'] at h
+    cases hl : lib.conv p i with
+    | error c =>
+      rw [conv_failure t lib w p output i pre c hl] at h
+      cases h
+      exact ⟨fun _ => ⟨p, i, c, rfl, hl⟩, fun _ => ⟨t, lib.errStr c, by simp⟩⟩
+    | ok res =>
+      obtain ⟨so, files, tail, he, _, _, htail⟩ := conv_success_cases t lib w p output i pre res hl
+      rw [he] at h
+      cases h
+      constructor
+      · rintro ⟨t', x, hm⟩
+        exfalso
+        rcases List.mem_append.mp hm with hm | hm
+        · exact hgl pre hg t' x hm
+        · rcases List.mem_cons.mp hm with hm | hm
+          · cases hm
+          · rcases htail _ hm with ⟨q, hq⟩ | ⟨q, hq⟩ <;> cases hq
+      · rintro ⟨p', i', c, hc, hcv⟩
+        exfalso
+        simp only [Option.some.injEq, Prod.mk.injEq] at hc
+        rw [← hc.1, ← hc.2, hl] at hcv
+        cases hcv
+
+/-- The line is attributed to the right tool. -/
+theorem failed_line_names_the_tool (t : Tool) (g : Getopt) (lib : Lib) (w : World) (argv : Argv) (hn : NulFree argv)
+    (o : Out) (h : tool t g lib w argv = .done o) (t' : Tool) (x : Bytes) (hm : Line.failed t' x ∈ o.stderr) :
+    t' = t ∧ ∃ p i c, o.call = some (p, i) ∧ lib.conv p i = .error c ∧ x = lib.errStr c := by
+  obtain ⟨p, i, c, hc, hcv⟩ := (failed_line_iff_failure t g lib w argv hn o h).mp ⟨t', x, hm⟩
+  obtain ⟨sr, _, hcase⟩ := run_cases t g lib w argv hn
+  rcases hcase with ⟨pre, ls, _, _, h'⟩ | ⟨pre, p', output, i', hg, _, h'⟩
+  · rw [h'] at h; cases h; cases hc
+  · rw [h'] at h
+    cases hl : lib.conv p' i' with
+    | ok res =>
+      obtain ⟨so, files, tail, he, _⟩ := conv_success_cases t lib w p' output i' pre res hl
+      rw [he] at h
+      cases h
+      simp only [Option.some.injEq, Prod.mk.injEq] at hc
+      rw [← hc.1, ← hc.2, hl] at hcv
+      cases hcv
+    | error c' =>
+      rw [conv_failure t lib w p' output i' pre c' hl] at h
+      cases h
+      rcases List.mem_append.mp hm with hm | hm
+      · obtain ⟨_, _, _, he⟩ := hg _ hm
+        cases he
+      · rw [List.mem_singleton] at hm
+        cases hm
+        exact ⟨rfl, p', i', c', rfl, hl, rfl⟩
+
+/-- Unknown options, missing arguments and unreadable input are reported on standard error (and
+    only there): a run that does not convert prints at least one line on stderr, nothing on stdout. -/
+theorem usage_errors_reported_on_stderr (t : Tool) (g : Getopt) (lib : Lib) (w : World) (argv : Argv)
+    (hn : NulFree argv) (o : Out) (h : tool t g lib w argv = .done o) (hc : o.call = none) :
+    o.stderr ≠ [] ∧ o.stdout = [] ∧ o.exit = 0 := by
+  obtain ⟨sr, _, hcase⟩ := run_cases t g lib w argv hn
+  rcases hcase with ⟨pre, ls, _, hu, h'⟩ | ⟨pre, p, output, i, _, _, h'⟩
+  · rw [h'] at h; cases h
+    refine ⟨?_, rfl, rfl⟩
+    rcases hu with rfl | rfl | ⟨n, rfl⟩ | ⟨n, rfl⟩ <;> simp
+  · rw [h'] at h
+    exfalso
+    cases hl : lib.conv p i with
+    | error c =>
+      rw [conv_failure t lib w p output i pre c hl] at h
+      cases h
+      cases hc
+    | ok res =>
+      obtain ⟨so, files, tail, he, _⟩ := conv_success_cases t lib w p output i pre res hl
+      rw [he] at h
+      cases h
+      cases hc
 
 end Wbxml.Props.C20
